@@ -105,7 +105,9 @@ CHECKS = {
          "package result must equal a clean build of the same state.",
          "Bob's own death is emulated in-process (BaseException at the kill point, no later instrumented mutation); kill -9 from a script "
          "uses a real forked child; suspected violations are confirmed with real processes and a real os._exit. k is generated, not "
-         "exhaustive, in both tiers.",
+         "exhaustive, in both tiers: 1-2 faults in sequence plus 0-3 (thorough 2-6) further kill points tried one by one from a snapshot; "
+         "half of the plans aim at kill points next to workspace mutations. Two hand-written corpus cases enumerate the kill points "
+         "around the pruning of a changed build step and the re-checkout of a changed url SCM.",
          "3 (C05)", "E1 bobproc, E2 projgen, E3 scripts, E4 treecanon"),
  "C09": ("fault_enumeration",
          "operation-trace fault enumeration (kill / I-O error at every file-system operation of the upload, metadata upload and cache-mirror paths, competitor injected before every operation) plus Hypothesis-generated schedules of concurrent uploader/reader/mirror processes under a harness-owned scheduler; oracle = artifact name absent or complete payload, never replaced, inotify cross-check",
@@ -114,7 +116,9 @@ CHECKS = {
          "must see nothing or a complete artifact that never changes; failed uploads leave nothing under the name.",
          "Single-uploader kills are emulated in-process (all later primitives become no-ops), real kills occur in the scheduler layer; "
          "no power-loss model; http/azure back-ends not covered. A temporary file left by a failed (not killed) upload is counted as "
-         "information only - the property speaks about the artifact name.",
+         "information only - the property speaks about the artifact name. 'Complete' means: the whole gzip stream including its "
+         "trailer is present and Bob's own downloader extracts the expected payload; half of the undamaged mirror cases get an artifact "
+         "size just behind a read boundary of the tar stream reader.",
          "3 (C09)", "own tracer/scheduler (checks/c09_upload.py)"),
  "C16": ("exploration",
          "Hypothesis (project, churn-oriented edit history, clean plan) generation; invariant oracles over directory assignment (one variant per directory, surviving variants keep directories), dry-run vs real clean differential, garbage/used-set oracle from the real query-path output, final contents vs clean build",
